@@ -1,4 +1,14 @@
-(* C09 — the file store's listing walk (GCS/FileList.v) against the memory store's. *)
+(* C09 — the file store's listing walk (GCS/FileList.v) against the memory store's.
+   The walk now visits directory entries in the order of the names they stand for, so the object
+   names come in bytewise order ([fs_sort] sorts by [lex_cmp]).  Consequences proved here:
+   - fs_sort is a bytewise sort, and the identity on every bucket of a well-formed state;
+   - the file walk (directories, SkipDir pruning, early abort) returns the same page as the memory
+     walk for every sorted bucket, every delimiter, cursor, prefix and page size, with NO condition
+     on the names (no order-compatibility, no representability);
+   - hence handle_fs = handle on every state satisfying the store invariant [state_ok], and
+     run_fs init_state rs = run init_state rs for every request list;
+   - with the OLD order (filepath.Walk: per-directory lexical order, [fs_sort_walk]) the same
+     listing loses a name (what finding GCS-2 was). *)
 From Coq Require Import List NArith ZArith Bool Lia Sorting Permutation.
 Import ListNotations.
 From Emu.Common Require Import Bytes Str StrProofs.
@@ -7,7 +17,75 @@ From Emu.GCS Require Import Model FileList StoreProofs UploadProofs ListingProof
 Local Open Scope Z_scope.
 
 (* ================================================================== *)
-(* 1. The walk order: fs_sort sorts by segment lists                    *)
+(* 1. The walk order: fs_sort sorts bytewise                            *)
+
+Lemma sinsert_perm n l : Permutation (n :: l) (sinsert n l).
+Proof.
+  induction l as [|m r IH]; cbn; [apply Permutation_refl|].
+  destruct (lex_cmp n m); try apply Permutation_refl.
+  eapply perm_trans; [apply perm_swap|]. apply perm_skip. exact IH.
+Qed.
+
+Theorem fs_sort_perm names : Permutation names (fs_sort names).
+Proof.
+  induction names as [|n r IH]; cbn; [constructor|].
+  eapply perm_trans; [apply perm_skip; exact IH|]. apply sinsert_perm.
+Qed.
+
+Lemma sinsert_sorted n l : StronglySorted lex_le l -> StronglySorted lex_le (sinsert n l).
+Proof.
+  induction l as [|m r IH]; intros Hs; cbn.
+  - constructor; constructor.
+  - apply StronglySorted_inv in Hs. destruct Hs as [Hr Hall].
+    assert (Hcase : forall c, lex_cmp n m = c -> c <> Gt -> StronglySorted lex_le (n :: m :: r)).
+    { intros c Ec Hc. constructor; [constructor; assumption|].
+      assert (Hnm : lex_le n m) by (unfold lex_le; rewrite Ec; exact Hc).
+      constructor; [exact Hnm|]. eapply Forall_impl; [|exact Hall]. cbn. intros x Hx.
+      eapply lex_le_trans; eauto. }
+    destruct (lex_cmp n m) eqn:E.
+    + eapply Hcase; [reflexivity|discriminate].
+    + eapply Hcase; [reflexivity|discriminate].
+    + constructor; [apply IH; exact Hr|].
+      assert (Hmn : lex_le m n).
+      { unfold lex_le. rewrite (lex_antisym n m), E. cbn. discriminate. }
+      eapply Permutation_Forall; [apply sinsert_perm|]. constructor; assumption.
+Qed.
+
+(* the walk visits the names in bytewise order *)
+Theorem fs_sort_sorted names : StronglySorted lex_le (fs_sort names).
+Proof. induction names as [|n r IH]; cbn; [constructor|]. apply sinsert_sorted. exact IH. Qed.
+
+(* ... so it leaves a list that is already in bytewise order (duplicates allowed) as it is *)
+Theorem fs_sort_id_on_sorted names : StronglySorted lex_le names -> fs_sort names = names.
+Proof.
+  induction 1 as [|n r Hr IH Hall]; [reflexivity|]. cbn [fs_sort fold_right]. fold (fs_sort r). rewrite IH.
+  destruct r as [|m r']; [reflexivity|]. cbn [sinsert]. inversion Hall as [|x y Hnm _]; subst.
+  unfold lex_le in Hnm. destruct (lex_cmp n m); try reflexivity. congruence.
+Qed.
+
+Lemma sorted_lt_le names : StronglySorted lex_lt names -> StronglySorted lex_le names.
+Proof.
+  induction 1 as [|n r Hr IH Hall]; constructor; [exact IH|].
+  eapply Forall_impl; [|exact Hall]. intros m Hm. apply lex_lt_le. exact Hm.
+Qed.
+
+(* buckets are association lists kept strictly ascending by name ([asorted], the invariant of
+   [ainsert]/[aremove]): the walk order of a bucket is the bucket's own order *)
+Theorem fs_sort_bucket (bk : bucket) : asorted bk -> fs_sort (map fst bk) = map fst bk.
+Proof. intros Hs. apply fs_sort_id_on_sorted, sorted_lt_le, asorted_names. exact Hs. Qed.
+
+Lemma state_ok_bucket s b bk : state_ok s -> get_bucket s b = Some bk -> asorted bk.
+Proof. intros [Hb _] H. eapply buckets_ok_lookup; eauto. Qed.
+
+Theorem fs_sort_state_ok s b bk : state_ok s -> get_bucket s b = Some bk ->
+  fs_sort (map fst bk) = map fst bk.
+Proof. intros Hok H. apply fs_sort_bucket. eapply state_ok_bucket; eauto. Qed.
+
+Theorem fs_sort_reachable rs b bk : get_bucket (fst (run init_state rs)) b = Some bk ->
+  fs_sort (map fst bk) = map fst bk.
+Proof. intros H. apply fs_sort_bucket. eapply reachable_bucket_sorted; eauto. Qed.
+
+(* ---- the old order (filepath.Walk): a sort by path-segment lists ---- *)
 
 Lemma segs_cmp_refl a : segs_cmp a a = Eq.
 Proof. induction a as [|x xs IH]; cbn; auto. rewrite lex_refl. exact IH. Qed.
@@ -45,28 +123,23 @@ Proof.
   rewrite (segs_lt_trans a b c E1 E2). discriminate.
 Qed.
 
-Lemma segs_le_total a b : segs_le a b \/ segs_le b a.
-Proof.
-  unfold segs_le. rewrite (segs_cmp_antisym a b). destruct (segs_cmp a b); cbn; [left|left|right]; discriminate.
-Qed.
-
-(* the order on names the file walk uses *)
+(* the order on names the walk used to follow *)
 Definition name_le (n m : str) : Prop := segs_le (segs n) (segs m).
 
-Lemma sinsert_perm n l : Permutation (n :: l) (sinsert n l).
+Lemma sinsert_walk_perm n l : Permutation (n :: l) (sinsert_walk n l).
 Proof.
   induction l as [|m r IH]; cbn; [apply Permutation_refl|].
   destruct (segs_cmp (segs n) (segs m)); try apply Permutation_refl.
   eapply perm_trans; [apply perm_swap|]. apply perm_skip. exact IH.
 Qed.
 
-Theorem fs_sort_perm names : Permutation names (fs_sort names).
+Theorem fs_sort_walk_perm names : Permutation names (fs_sort_walk names).
 Proof.
   induction names as [|n r IH]; cbn; [constructor|].
-  eapply perm_trans; [apply perm_skip; exact IH|]. apply sinsert_perm.
+  eapply perm_trans; [apply perm_skip; exact IH|]. apply sinsert_walk_perm.
 Qed.
 
-Lemma sinsert_sorted n l : StronglySorted name_le l -> StronglySorted name_le (sinsert n l).
+Lemma sinsert_walk_sorted n l : StronglySorted name_le l -> StronglySorted name_le (sinsert_walk n l).
 Proof.
   induction l as [|m r IH]; intros Hs; cbn.
   - constructor; constructor.
@@ -83,64 +156,29 @@ Proof.
     + constructor; [apply IH; exact Hr|].
       assert (Hmn : name_le m n).
       { unfold name_le, segs_le. rewrite (segs_cmp_antisym (segs n) (segs m)), E. cbn. discriminate. }
-      eapply Permutation_Forall; [apply sinsert_perm|]. constructor; assumption.
+      eapply Permutation_Forall; [apply sinsert_walk_perm|]. constructor; assumption.
 Qed.
 
-Theorem fs_sort_sorted names : StronglySorted name_le (fs_sort names).
-Proof. induction names as [|n r IH]; cbn; [constructor|]. apply sinsert_sorted. exact IH. Qed.
+Theorem fs_sort_walk_sorted names : StronglySorted name_le (fs_sort_walk names).
+Proof. induction names as [|n r IH]; cbn; [constructor|]. apply sinsert_walk_sorted. exact IH. Qed.
 
-(* ================================================================== *)
-(* 4. The two stores answer a listing differently (finding GCS-2)       *)
-
-(* bucket "b" holding "foo-bar/x" and "foo/y"; listing with prefix "foo-":
-   bytewise "foo-bar/x" < "foo/y" ('-' < '/'), but the directory walk visits foo/ before
-   foo-bar/, meets "foo/y" > prefix range and aborts: the file store returns nothing. *)
-Definition c09_cp0 : cparams := mkCP (PRaw []) (PRaw []) (PRaw []) (PRaw []).
-Definition c09_bucket : str := [98]%N.
-Definition c09_foo_bar_x : str := [102; 111; 111; 45; 98; 97; 114; 47; 120]%N.
-Definition c09_foo_y : str := [102; 111; 111; 47; 121]%N.
-Definition c09_state : state :=
-  fst (run init_state [RUploadMedia c09_bucket c09_foo_bar_x [116]%N [1]%N c09_cp0;
-                       RUploadMedia c09_bucket c09_foo_y [116]%N [2]%N c09_cp0]).
-Definition c09_list : req := RList c09_bucket [102; 111; 111; 45]%N [] None None.
-
-Theorem stores_listing_refuted :
-  list_proj (snd (handle c09_state c09_list)) = ([c09_foo_bar_x], [], None)
-  /\ list_proj (snd (handle_fs c09_state c09_list)) = ([], [], None)
-  /\ handle_fs c09_state c09_list <> handle c09_state c09_list.
+Lemma fs_sort_walk_id_on_sorted names : StronglySorted name_le names -> fs_sort_walk names = names.
 Proof.
-  split; [timeout 60 vm_compute; reflexivity|]. split; [timeout 60 vm_compute; reflexivity|].
-  intros H. apply (f_equal (fun x => list_proj (snd x))) in H. revert H. timeout 60 vm_compute. discriminate.
-Qed.
-
-(* ================================================================== *)
-(* 2. Order-compatible and representable name sets                      *)
-
-(* the bytewise order and the segment-list order agree on the names: the file walk visits a
-   lex-ascending list of names in that same order *)
-Definition order_compatible (names : list str) : Prop := fs_sort names = names.
-
-(* what a file system can hold: no empty name, no empty path segment, no name that is also a
-   directory of another name *)
-Definition proper_dir_prefix (n m : str) : Prop := exists t, t <> [] /\ segs m = segs n ++ t.
-Definition representable (names : list str) : Prop :=
-  Forall (fun n => n <> [] /\ ~ In [] (segs n)) names
-  /\ forall n m, In n names -> In m names -> ~ proper_dir_prefix n m.
-
-Lemma sorted_fs_sort_id names : StronglySorted name_le names -> fs_sort names = names.
-Proof.
-  induction 1 as [|n r Hr IH Hall]; [reflexivity|]. cbn [fs_sort fold_right]. fold (fs_sort r). rewrite IH.
-  destruct r as [|m r']; [reflexivity|]. cbn [sinsert]. inversion Hall as [|x y Hnm _]; subst.
+  induction 1 as [|n r Hr IH Hall]; [reflexivity|]. cbn [fs_sort_walk fold_right]. fold (fs_sort_walk r). rewrite IH.
+  destruct r as [|m r']; [reflexivity|]. cbn [sinsert_walk]. inversion Hall as [|x y Hnm _]; subst.
   unfold name_le, segs_le in Hnm. destruct (segs_cmp (segs n) (segs m)); try reflexivity. congruence.
 Qed.
 
+(* the old walk visited a list of names in the given order iff that list is in segment order *)
+Definition order_compatible (names : list str) : Prop := fs_sort_walk names = names.
+
 Lemma order_compatible_iff names : order_compatible names <-> StronglySorted name_le names.
 Proof.
-  split; [|apply sorted_fs_sort_id]. unfold order_compatible. intros H. rewrite <- H. apply fs_sort_sorted.
+  split; [|apply fs_sort_walk_id_on_sorted]. unfold order_compatible. intros H. rewrite <- H. apply fs_sort_walk_sorted.
 Qed.
 
 (* ================================================================== *)
-(* 3. Comparison up to the shorter length, and what the walk tests mean *)
+(* 2. Comparison up to the shorter length, and what the walk tests mean *)
 
 Fixpoint pcmp (a p : bytes) : comparison :=
   match a, p with
@@ -244,7 +282,7 @@ Proof.
 Qed.
 
 (* ================================================================== *)
-(* 4. The two walks return the same page                                *)
+(* 3. The two walks return the same page                                *)
 
 Section Walk.
   Variables delim cursor prefix : str.
@@ -463,34 +501,50 @@ Section Walk.
   Qed.
 End Walk.
 
-(* fs_walk_equiv, from order-compatibility alone (the model needs no more) *)
-Theorem fs_walk_equiv_order (bk : bucket) delim cursor prefix maxres :
-  asorted bk -> order_compatible (map fst bk) ->
+(* ================================================================== *)
+(* 4. The file walk of a bucket = the memory walk of the bucket         *)
+
+(* MAIN THEOREM.  For every bucket kept sorted (strictly ascending names, hence duplicate-free:
+   what the store invariant gives), every delimiter, cursor, prefix and page size, the file walk
+   — root, directory entries, SkipDir pruning, early abort — returns the same
+   (found, prefixes, more) as the memory walk.
+   No "representable" side condition is needed.  In a directory tree a name cannot be a file and a
+   directory at once, but [fs_entries] is defined for every name list (a name that is also a
+   directory of another name simply yields a file entry and a directory entry with the same path,
+   empty segments yield directories such as "a/"), and the simulation below never looks at the
+   shape of the names: it only uses (a) a directory entry of n is a string prefix d of n followed
+   by "/", (b) the names come in strictly ascending bytewise order. *)
+Theorem fs_walk_equiv (bk : bucket) delim cursor prefix maxres :
+  asorted bk ->
   list_walk delim cursor prefix maxres (fs_entries bk) = list_walk delim cursor prefix maxres (mem_entries bk).
 Proof.
-  intros Hs Hoc. unfold fs_entries. rewrite Hoc, mem_entries_ents. apply walk_equiv_sorted. apply asorted_names. exact Hs.
+  intros Hs. unfold fs_entries. rewrite (fs_sort_bucket bk Hs), mem_entries_ents.
+  apply walk_equiv_sorted. apply asorted_names. exact Hs.
 Qed.
 
-Theorem fs_walk_equiv (bk : bucket) delim cursor prefix maxres :
-  asorted bk -> representable (map fst bk) -> order_compatible (map fst bk) ->
-  list_walk delim cursor prefix maxres (fs_entries bk) = list_walk delim cursor prefix maxres (mem_entries bk).
-Proof. intros Hs _ Hoc. apply fs_walk_equiv_order; assumption. Qed.
+(* the same for a bare list of names in strictly ascending order *)
+Theorem fs_walk_equiv_names names delim cursor prefix maxres :
+  StronglySorted lex_lt names ->
+  list_walk delim cursor prefix maxres (([], true) :: fs_entries_go [] (fs_sort names))
+  = list_walk delim cursor prefix maxres (ents names).
+Proof.
+  intros Hs. rewrite (fs_sort_id_on_sorted names (sorted_lt_le names Hs)). apply walk_equiv_sorted. exact Hs.
+Qed.
 
+(* without a delimiter the page is the closed form: the first maxres selected names *)
 Corollary fs_walk_equiv_nodelim (bk : bucket) cursor prefix maxres :
-  asorted bk -> order_compatible (map fst bk) ->
+  asorted bk ->
   list_walk [] cursor prefix maxres (fs_entries bk)
   = (firstn maxres (filter (sel cursor prefix) (map fst bk)), [],
      (maxres <? length (filter (sel cursor prefix) (map fst bk)))%nat).
-Proof. intros Hs Hoc. rewrite fs_walk_equiv_order by assumption. apply page_spec_bucket. exact Hs. Qed.
+Proof. intros Hs. rewrite fs_walk_equiv by exact Hs. apply page_spec_bucket. exact Hs. Qed.
 
 (* ================================================================== *)
-(* 5. The two stores answer alike on compatible states                  *)
+(* 5. The two stores answer alike                                       *)
 
-Definition fs_compatible (s : state) : Prop :=
-  forall b bk, get_bucket s b = Some bk ->
-    asorted bk /\ representable (map fst bk) /\ order_compatible (map fst bk).
-
-Theorem stores_equivalent s r : fs_compatible s -> handle_fs s r = handle s r.
+(* the only thing needed of the state: its buckets are sorted *)
+Theorem stores_equivalent_buckets s r :
+  (forall b bk, get_bucket s b = Some bk -> asorted bk) -> handle_fs s r = handle s r.
 Proof.
   intros Hc. destruct r; try reflexivity. cbn [handle_fs handle]. change gcsDefaultMaxResults with 1000.
   destruct (match maxres with
@@ -498,26 +552,63 @@ Proof.
             | None => Some 1000
             end) as [m|]; [|reflexivity].
   destruct (get_bucket s b) as [bk|] eqn:E; [|reflexivity].
-  destruct (Hc b bk E) as [Hs [_ Hoc]]. rewrite fs_walk_equiv_order by assumption. reflexivity.
+  rewrite fs_walk_equiv by (eapply Hc; exact E). reflexivity.
 Qed.
 
-(* every intermediate state of the run is compatible *)
-Fixpoint fs_compatible_run (s : state) (rs : list req) : Prop :=
-  match rs with
-  | [] => True
-  | r :: rest => fs_compatible s /\ fs_compatible_run (fst (handle s r)) rest
-  end.
+(* on every state satisfying the store invariant, every request gets the same answer (and leaves
+   the same state) from both stores *)
+Theorem stores_equivalent s r : state_ok s -> handle_fs s r = handle s r.
+Proof. intros Hok. apply stores_equivalent_buckets. intros b bk H. eapply state_ok_bucket; eauto. Qed.
 
-Theorem run_fs_equiv rs : forall s, fs_compatible_run s rs -> run_fs s rs = run s rs.
+(* whole histories; the invariant is preserved by [handle] (UploadProofs.state_ok_preserved) *)
+Theorem run_fs_equiv rs : forall s, state_ok s -> run_fs s rs = run s rs.
 Proof.
-  induction rs as [|r rest IH]; intros s H; [reflexivity|]. destruct H as [H1 H2].
-  cbn [run_fs run]. rewrite (stores_equivalent s r H1). destruct (handle s r) as [s1 rsp]. cbn [fst] in H2.
-  rewrite (IH s1 H2). reflexivity.
+  induction rs as [|r rest IH]; intros s Hok; [reflexivity|].
+  cbn [run_fs run]. rewrite (stores_equivalent s r Hok).
+  pose proof (state_ok_preserved s r Hok) as Hok1. destruct (handle s r) as [s1 rsp]. cbn [fst] in Hok1.
+  rewrite (IH s1 Hok1). reflexivity.
 Qed.
 
-(* soundness of the file walk without any hypothesis on the names: every item returned is a
-   stored object whose name has the prefix and is above the cursor (completeness is what fails) *)
-Theorem prune_sound_partial s b prefix delim cursor maxres s' items prefixes next :
+(* every history from the empty store, no condition on the requests *)
+Corollary run_fs_equiv_init rs : run_fs init_state rs = run init_state rs.
+Proof. apply run_fs_equiv. apply state_ok_init. Qed.
+
+Corollary run_fs_canon_equiv rs : run_fs_canon rs = run_canon rs.
+Proof. unfold run_fs_canon, run_canon. rewrite run_fs_equiv_init. reflexivity. Qed.
+
+(* ================================================================== *)
+(* 6. The pruning tests of the walk are sound, for all inputs           *)
+
+(* (a) SkipDir: a directory d below the cursor or below the prefix (up to its length) is not
+       entered; no name under d is selected by the listing.
+   (b) abort on a directory: a directory beyond the prefix range stops the walk; every name under
+       it is beyond the prefix range too, and so (prefix_abort_sound) is every later name of an
+       ascending list: none of them has the prefix.
+   (a) holds whatever the visiting order; (b) needs the names to come in bytewise order, which is
+   what the walk now guarantees (fs_sort_sorted) and what the old order broke. *)
+Theorem prune_sound cursor prefix d n : has_prefix n (d ++ s_sep) = true ->
+  (less_than_prefix d cursor || less_than_prefix d prefix = true -> sel cursor prefix n = false)
+  /\ (greater_than_prefix d prefix = true ->
+      greater_than_prefix n prefix = true /\ has_prefix n prefix = false
+      /\ forall rest, StronglySorted lex_lt (n :: rest) ->
+           Forall (fun g => greater_than_prefix g prefix = true /\ has_prefix g prefix = false) rest).
+Proof.
+  intros Hp. apply has_prefix_app_inv in Hp. destruct Hp as [t ->]. split.
+  - intros Hl. apply orb_prop in Hl. unfold sel. destruct Hl as [Hl|Hl]; apply ltp_lt in Hl.
+    + assert (H : pcmp ((d ++ s_sep) ++ t) cursor = Lt) by (rewrite <- app_assoc, pcmp_ext; congruence).
+      destruct (pcmp_lt_facts _ _ H) as [_ [_ Hle]]. rewrite lex_ltb_leb, Hle. reflexivity.
+    + assert (H : pcmp ((d ++ s_sep) ++ t) prefix = Lt) by (rewrite <- app_assoc, pcmp_ext; congruence).
+      destruct (pcmp_lt_facts _ _ H) as [_ [Hnp _]]. rewrite Hnp. apply andb_false_r.
+  - intros Hg.
+    assert (Hn : greater_than_prefix ((d ++ s_sep) ++ t) prefix = true).
+    { rewrite gtp_pcmp in Hg |- *. rewrite <- app_assoc, pcmp_ext; destruct (pcmp d prefix); congruence. }
+    split; [exact Hn|]. split; [apply gtp_not_prefix; exact Hn|].
+    intros rest Hs. pose proof (prefix_abort_sound _ rest prefix Hs Hn) as H. inversion H; assumption.
+Qed.
+
+(* soundness of the file listing on ANY state: every item returned is a stored object whose name
+   has the prefix and is above the cursor *)
+Theorem fs_list_sound s b prefix delim cursor maxres s' items prefixes next :
   handle_fs s (RList b prefix delim cursor maxres) = (s', mkResp 200 (BList items prefixes next)) ->
   Forall (fun v => exists o, find_obj s b (v_name v) = Some o /\ v = view b (v_name v) o
                     /\ lex_ltb (match cursor with Some c => c | None => [] end) (v_name v) = true
@@ -537,8 +628,83 @@ Proof.
   destruct (alookup n bk) as [o|] eqn:El; constructor; [|constructor]. cbn [view v_name]. exists o. auto.
 Qed.
 
-(* non-vacuity: a bucket with nested names on which the orders agree *)
+(* ... and completeness, which is what used to fail: on a well-formed state the file listing
+   without delimiter returns exactly the first m selected names of the bucket, in order, with a
+   page token iff there are more *)
+Theorem fs_list_complete s b prefix cursor ms m bk :
+  state_ok s -> parse_int ms = Some m -> (1 <= m)%Z -> get_bucket s b = Some bk ->
+  let cur := match cursor with Some c => c | None => [] end in
+  let F := filter (sel cur prefix) (map fst bk) in
+  let found := firstn (Z.to_nat m) F in
+  let more := (Z.to_nat m <? length F)%nat in
+  exists items,
+    handle_fs s (RList b prefix [] cursor (Some ms))
+    = (s, mkResp 200 (BList items []
+                        (if more then match rev found with l :: _ => Some l | [] => None end else None)))
+    /\ map v_name items = found
+    /\ Forall (fun v => v_bucket v = b /\ exists o, alookup (v_name v) bk = Some o /\ v = view b (v_name v) o) items.
+Proof.
+  intros Hok Hp Hm Hb. rewrite (stores_equivalent s _ Hok).
+  apply handle_list_page; auto. eapply state_ok_bucket; eauto.
+Qed.
+
+(* ================================================================== *)
+(* 7. What the repair changed: the old walk order loses a name (GCS-2)  *)
+
+(* the entries the walk produced with filepath.Walk's order *)
+Definition fs_entries_walk (bk : bucket) : list (str * bool) :=
+  ([], true) :: fs_entries_go [] (fs_sort_walk (map fst bk)).
+
+(* when the two orders agree on a bucket the old walk was right too (the former fs_walk_equiv) *)
+Theorem old_walk_equiv_order (bk : bucket) delim cursor prefix maxres :
+  asorted bk -> order_compatible (map fst bk) ->
+  list_walk delim cursor prefix maxres (fs_entries_walk bk) = list_walk delim cursor prefix maxres (mem_entries bk).
+Proof.
+  intros Hs Hoc. unfold fs_entries_walk. rewrite Hoc, mem_entries_ents. apply walk_equiv_sorted.
+  apply asorted_names. exact Hs.
+Qed.
+
+(* bucket "b" holding "foo-bar/x" and "foo/y"; listing with prefix "foo-":
+   bytewise "foo-bar/x" < "foo/y" ('-' < '/'), but filepath.Walk visited directory foo before
+   foo-bar, met "foo/y" beyond the prefix range and aborted: nothing was listed.  With the names in
+   bytewise order "foo-bar/x" is visited first and found. *)
+Definition c09_cp0 : cparams := mkCP (PRaw []) (PRaw []) (PRaw []) (PRaw []).
+Definition c09_bucket : str := [98]%N.
+Definition c09_foo_bar_x : str := [102; 111; 111; 45; 98; 97; 114; 47; 120]%N.
+Definition c09_foo_y : str := [102; 111; 111; 47; 121]%N.
+Definition c09_foo_dash : str := [102; 111; 111; 45]%N.
+Definition c09_state : state :=
+  fst (run init_state [RUploadMedia c09_bucket c09_foo_bar_x [116]%N [1]%N c09_cp0;
+                       RUploadMedia c09_bucket c09_foo_y [116]%N [2]%N c09_cp0]).
+Definition c09_bk : bucket := match get_bucket c09_state c09_bucket with Some bk => bk | None => [] end.
+Definition c09_list : req := RList c09_bucket c09_foo_dash [] None None.
+
+Theorem old_walk_order_refuted :
+  get_bucket c09_state c09_bucket = Some c09_bk
+  /\ map fst c09_bk = [c09_foo_bar_x; c09_foo_y]
+  /\ fs_sort_walk (map fst c09_bk) = [c09_foo_y; c09_foo_bar_x]
+  /\ fs_sort (map fst c09_bk) = [c09_foo_bar_x; c09_foo_y]
+  /\ list_walk [] [] c09_foo_dash 1000 (fs_entries_walk c09_bk) = ([], [], false)
+  /\ list_walk [] [] c09_foo_dash 1000 (fs_entries c09_bk) = ([c09_foo_bar_x], [], false)
+  /\ list_walk [] [] c09_foo_dash 1000 (mem_entries c09_bk) = ([c09_foo_bar_x], [], false)
+  /\ list_proj (snd (handle_fs c09_state c09_list)) = ([c09_foo_bar_x], [], None)
+  /\ handle_fs c09_state c09_list = handle c09_state c09_list.
+Proof.
+  repeat (split; [timeout 60 vm_compute; reflexivity|]).
+  apply stores_equivalent. apply state_ok_run. apply state_ok_init.
+Qed.
+
+(* ---- states for the non-vacuity examples ---- *)
+
+(* {"a/b", "a/c/d", "e"}: nested directories *)
 Definition c09_ok_state : state :=
   fst (run init_state [RUploadMedia c09_bucket [97; 47; 98]%N [116]%N [1]%N c09_cp0;
                        RUploadMedia c09_bucket [97; 47; 99; 47; 100]%N [116]%N [2]%N c09_cp0;
                        RUploadMedia c09_bucket [101]%N [116]%N [3]%N c09_cp0]).
+
+(* {"a", "a//c", "a/b"}: "a" is a name and a directory of another name, "a//c" has an empty
+   segment — not a directory tree, and still covered by the theorems *)
+Definition c09_odd_state : state :=
+  fst (run init_state [RUploadMedia c09_bucket [97; 47; 98]%N [116]%N [1]%N c09_cp0;
+                       RUploadMedia c09_bucket [97]%N [116]%N [2]%N c09_cp0;
+                       RUploadMedia c09_bucket [97; 47; 47; 99]%N [116]%N [3]%N c09_cp0]).
